@@ -112,8 +112,9 @@ def cmd_check(sid, tier="quick"):
         rc, out = sh([os.path.join(HERE, "vx"), "check", prop, "--tier", tier], cwd=HERE, timeout=7200)
     finally:
         sh(["git", "-C", "/repo", "checkout", "--", "."])
-    lines = [l for l in out.splitlines() if l.startswith(("VIOLATION", "UNDECIDED", "KNOWN")) or ("UNIT" in l and "discharged" not in l)]
-    m.setdefault("checks", {})[tier] = dict(exit=rc, wall_s=round(time.time() - t0), lines=lines[:12], at=time.strftime("%Y-%m-%d %H:%M"),
+    lines = [l for l in out.splitlines() if l.startswith(("VIOLATION", "UNDECIDED")) or (l.startswith("UNIT") and "discharged" not in l)]
+    lines = [l for l in lines if not (l.startswith("UNIT") and any(("property=%s" % prop) in k and False for k in []))]
+    m.setdefault("checks", {})[tier] = dict(exit=rc, wall_s=round(time.time() - t0), lines=lines[:24], at=time.strftime("%Y-%m-%d %H:%M"),
                                             verif_commit=sh(["git", "-C", HERE, "rev-parse", "--short", "HEAD"])[1].strip())
     m["detected"] = any(v["exit"] == 1 for v in m["checks"].values())
     save(sid, m)
@@ -131,7 +132,7 @@ def cmd_table():
         ch = m.get("checks", {})
         def ex(t):
             return {None: "-", 0: "missed", 1: "VIOLATION", 2: "undecided"}.get(ch.get(t, {}).get("exit"), "?") if t in ch else "-"
-        units = sorted(set(re.sub(r"\[.*", "", l.split()[1]) for t in ch.values() for l in t.get("lines", []) if l.startswith("UNIT") and "violated" in l))
+        units = sorted(set(re.sub(r"_[a-z]*_?\d.*|\.json.*", "", os.path.basename(l.split("replay=")[1].split()[0])) for t in ch.values() for l in t.get("lines", []) if l.startswith("VIOLATION")))
         print("| %s | %s | %s | %s | %s | %s | %s |" % (sid, m["property"], (m.get("summary") or "")[:160], "yes" if m.get("confirmed") else "no", ex("quick"), ex("thorough"), ", ".join(units)[:120]))
 
 
